@@ -8,7 +8,7 @@ for f in sorted(glob.glob('/verif/evidence/C*.json')):
 table = "| prop | functions under contract | obligations | discharged | known findings | wall (s) |\n|---|---|---|---|---|---|\n" + "\n".join("| %s | %d | %d | %d | %d | %d |" % r for r in rows)
 s = open('/verif/DESIGN.md').read()
 i = s.index('### Claimed now:'); j = s.index('What each check proves, and what it does not', i)
-head = "### Claimed now: %d properties\n\n%s. Every quick check exits 0 on the unchanged tree (`tools/runall.sh`; the fresh-restore runs `vp check` 2-4 reported\nnothing). Counts from the evidence files of the last run (quick tier, 16 cores):\n\n%s\n\n" % (len(rows), ", ".join(r[0] for r in rows), table)
+head = "### Claimed now: %d properties\n\n%s. Every quick check exits 0 on the unchanged tree (`tools/runall.sh`; the fresh-restore runs `vp check` 2-5 reported\nnothing). The thorough tier (longer limits, cross-check between solvers) was run over all of them at the end of the session and is quiet too. Counts from the evidence files of the last run (quick tier, 16 cores):\n\n%s\n\n" % (len(rows), ", ".join(r[0] for r in rows), table)
 s = s[:i] + head + s[j:]
 s = re.sub(r'\*\*Built and\n  claimed so far: \d+\*\*', '**Built and\n  claimed so far: %d**' % len(rows), s)
 open('/verif/DESIGN.md', 'w').write(s)
